@@ -23,8 +23,9 @@ NLines == Len(Trc)
 MaxOraclePts == 26        \* segments longer than this are exempted from the O(p^3) feasibility oracle
 MaxModelN == 48           \* tier B rebuilds the index in the model only for arrays up to this size
 
-VARIABLES l, x, R, data, B, nviol, ndrift, cnt, done
-vars == <<l, x, R, data, B, nviol, ndrift, cnt, done>>
+VARIABLES l, x, R, data, B, nviol, ndrift, cnt, done,
+          segSeen      \* a SegCall line (hook H1) was seen since the last Build
+vars == <<l, x, R, data, B, nviol, ndrift, cnt, done, segSeen>>
 
 Ev == Trc[l]
 IsEvent(e) == l <= NLines /\ Ev.e = e /\ l' = l + 1
@@ -34,12 +35,13 @@ CountFailed(checks, i) == IF i > Len(checks) THEN 0
                           ELSE (IF checks[i][1] THEN 0 ELSE (IF Viol(checks[i][2], checks[i][3]) THEN 1 ELSE 1))
                                + CountFailed(checks, i + 1)
 ZeroCnt == [searches |-> 0, present |-> 0, builds |-> 0, segcalls |-> 0, oracle_segments |-> 0, oracle_skipped |-> 0,
-            route_steps |-> 0, modelled_builds |-> 0, within_eps_points |-> 0]
+            route_steps |-> 0, modelled_builds |-> 0, within_eps_points |-> 0,
+            hook_silent |-> 0]   \* a hook that should have fired logged nothing: the driver reports a machinery failure, not a violation
 
 TInit == l = 2 /\ x = -1 /\ R = [cls |-> "none"] /\ data = <<>> /\ B = [out |-> "none"] /\ nviol = 0 /\ ndrift = 0
-         /\ cnt = ZeroCnt /\ done = FALSE
+         /\ cnt = ZeroCnt /\ done = FALSE /\ segSeen = TRUE
 
-TReset == /\ IsEvent("Reset") /\ x' = Ev.x /\ R' = Ev /\ data' = <<>> /\ B' = [out |-> "none"]
+TReset == /\ IsEvent("Reset") /\ x' = Ev.x /\ R' = Ev /\ data' = <<>> /\ B' = [out |-> "none"] /\ segSeen' = TRUE
           /\ UNCHANGED <<nviol, ndrift, cnt, done>>
 
 Offset == R.norm = "offset"
@@ -74,6 +76,7 @@ TBuild ==
            THEN PrintT(<<"TRACE-DRIFT", "C01", l, x, "segments_differ_from_model">>) /\ ndrift' = ndrift + 1
            ELSE ndrift' = ndrift
         /\ cnt' = [cnt EXCEPT !.builds = @ + 1, !.modelled_builds = @ + (IF Ev.out = "ok" /\ Modelled(a) THEN 1 ELSE 0)]
+        /\ segSeen' = ~(Ev.out = "ok" /\ R.cls = "PGMIndex")
   /\ UNCHANGED <<x, R, done>>
 
 (***************************************************************************)
@@ -115,7 +118,7 @@ OracleSegsC(C) == LET f(c) == Cardinality({s \in 1..(Len(c.cu) - 1) : c.cu[s + 1
 FeasibleCallC(c, eps) ==
   \A s \in 1..Len(c.cu) : (LastOf(c, s) - c.cu[s] + 1 <= MaxOraclePts) => Feasible(PtSet(c.p, c.cu[s], LastOf(c, s)), eps)
 StartsApartCallC(c, eps) == \A s \in 1..(Len(c.cu) - 1) : c.p[c.cu[s + 1]][2] - c.p[c.cu[s]][2] > 2 * eps
-NChunksOf(E) == IF E.level0 = 1 THEN R.chunks ELSE 1
+NChunksOf(E) == E.chunks
 \* the points the sequential builder feeds for this array, by the specification's transcription
 SeqOptimum(a, eps) == OracleGreedyCount(Pts(a), eps)
 SmallForOptimum(E) == Offset /\ E.level0 = 1 /\ Len(data) <= 120 /\ E.eps <= 8
@@ -141,6 +144,7 @@ TSegCall ==
                 "C04", "segment_count_not_minimal">>,
               <<(E.level0 = 1 /\ B.out = "ok" /\ R.cls = "PGMIndex" /\ E.src = "index") => B.nsegs <= nsegs + 1, "C04", "segments_count_mismatch">> >>, 1)
         /\ cnt' = [cnt EXCEPT !.segcalls = @ + 1, !.oracle_segments = @ + (IF Offset /\ E.level0 = 1 THEN OracleSegsC(C) ELSE 0)]
+  /\ segSeen' = TRUE
   /\ UNCHANGED <<x, R, data, B, ndrift, done>>
 
 (***************************************************************************)
@@ -173,8 +177,9 @@ RouteOK(S, r) ==
      /\ r[3] + e + 1 >= r[2]
      /\ IF r[4] = 0 THEN r[5] >= r[3] /\ r[5] - r[3] + 1 <= 2 * e + 3
         ELSE r[3] <= r[5] /\ r[5] < r[4] /\ r[4] - r[3] <= 2 * e + 3 /\ r[4] <= Len(keys) - 1
-C07OK(S) == /\ \A i \in 1..Len(S.route) : RouteOK(S, S.route[i])
-            /\ (R.cls = "PGMIndex" /\ R.epsrec > 0) => Len(S.route) = B.height - 1
+C07OK(S) == \A i \in 1..Len(S.route) : RouteOK(S, S.route[i])
+\* hook H2 logs one step per level below the top one
+RouteLogged(S) == (R.cls = "PGMIndex" /\ R.epsrec > 0) => Len(S.route) = B.height - 1
 \* tier B: the result follows Predict / Cap / Widen on the logged bottom level with an admissible rounding
 SubEps(v, e) == IF v <= e THEN 0 ELSE v - e
 AddEps(v, e, size) == IF v + e + 2 >= size THEN size ELSE v + e + 2
@@ -222,16 +227,17 @@ TSearch ==
         THEN PrintT(<<"TRACE-DRIFT", "C01", l, x, "result_not_by_formula">>) /\ ndrift' = ndrift + 1
         ELSE ndrift' = ndrift
      /\ cnt' = [cnt EXCEPT !.searches = @ + 1, !.present = @ + (IF PresentK(data, S.q) THEN 1 ELSE 0),
-                           !.route_steps = @ + Len(S.route)]
-  /\ UNCHANGED <<x, R, data, B, done>>
+                           !.route_steps = @ + Len(S.route), !.hook_silent = @ + (IF RouteLogged(S) THEN 0 ELSE 1)]
+  /\ UNCHANGED <<x, R, data, B, done, segSeen>>
 
-TEnd == IsEvent("End") /\ UNCHANGED <<x, R, data, B, nviol, ndrift, cnt, done>>
+TEnd == /\ IsEvent("End") /\ cnt' = [cnt EXCEPT !.hook_silent = @ + (IF segSeen THEN 0 ELSE 1)]
+        /\ UNCHANGED <<x, R, data, B, nviol, ndrift, done, segSeen>>
 
 TDone == /\ l = NLines + 1 /\ ~done
          /\ PrintT(<<"TRACE-DONE", NLines, nviol, ndrift>>)
          /\ \A f \in DOMAIN cnt : PrintT(<<"TRACE-COUNT", f, cnt[f]>>)
          /\ done' = TRUE
-         /\ UNCHANGED <<l, x, R, data, B, nviol, ndrift, cnt>>
+         /\ UNCHANGED <<l, x, R, data, B, nviol, ndrift, cnt, segSeen>>
 
 TNext == TReset \/ TBuild \/ TSegCall \/ TSearch \/ TEnd \/ TDone
 TSpec == TInit /\ [][TNext]_vars
